@@ -89,7 +89,7 @@ FW_PLANS = {
             gen=[C("core-quick", "full", 2, 1, "wide"), C("core-quick", "core", 2, 2, "one"),
                  C("core-thorough", "core", 2, 1, "mixed"),
                  C("lazy", "lazy", 2, 1, "one"), C("end-quick", "end", 2, 2, "one"), C("limit-duo", "limit", 3, 1, "one"),
-                 C("sig-duo", "sig", 2, 2, "one"), C("limit-reenter", "limit", 3, 2, "one"),
+                 C("sig-duo", "sig", 2, 2, "one"), C("limit-reenter", "limit", 2, 2, "one"),
                  C("ctr-quick", "ctr", 3, 2, "one"), C("sig-quick", "sig", 2, 2, "one"),
                  C("limit-quick", "limit", 4, 1, "one"), C("pad-quick", "pad", 4, 1, "one"),
                  C("block-quick", "block", 4, 1, "mixed")],
@@ -106,7 +106,8 @@ FW_PLANS = {
             workers=14,
             mc=[C("limit-quick", "limit", 3, 2, "one", ["Inv_C07"]),
                 C("limit-thorough", "limit", 4, 1, "one", ["Inv_C07"]), C("limit-reenter", "limit", 4, 1, "one", ["Inv_C07"])],
-            gen=[C("limit-quick", "limit", 4, 1, "one"), C("limit-reenter", "limit", 3, 2, "one")],
+            gen=[C("limit-quick", "limit", 4, 1, "one"), C("limit-reenter", "limit", 2, 2, "one"),
+                 C("limit-duo", "limit", 3, 1, "one")],
             rand=dict(scenarios=3000, calls=60))),
     "C08": dict(
         verdicts={"C08"},
